@@ -509,16 +509,44 @@ func ntimedHistory(c *lib.Ctx, r *lib.Rand, kind int, length int) {
 	if kind == 2 {
 		theta = r.Range(-4_000_000_000_000_000_000, 4_000_000_000_000_000_000)
 	}
+	// kind 6, "the clock gets stepped": the local clock starts off by a minute .. 57 years
+	// (RTC lost), the path is quiet (about 1 us jitter); every reset / epoch change stands
+	// for the step that removes the offset, after which one-sided spikes of a few jitters
+	// arrive.
+	stepAt := -1
+	if kind == 6 {
+		mag := []int64{60_000_000_000, 3_600_000_000_000, 86_400_000_000_000, 1_800_000_000_000_000_000}[r.Intn(4)]
+		theta = r.Range(mag/2, mag)
+		if r.Bool() {
+			theta = -theta
+		}
+		dly = r.Range(100_000, 2_000_000)
+		jit = r.Range(200, 3_000)
+		stepAt = int(r.Range(2, 12))
+	}
+	stepped := func() {
+		if kind == 6 {
+			theta = r.Range(-50_000_000, 50_000_000)
+			c.Count("ntimed:step:offset-removed")
+		}
+	}
 	for i := 0; i < length; i++ {
 		switch {
-		case r.Chance(4):
+		case r.Chance(4) || (i == stepAt && r.Bool()):
 			do("flt.ntimed.reset")
 			c.Count("ntimed:reset")
 			shadow = client.NewNtimedFilter(nil)
 			since = 0
 			believed = clk.epoch
+			stepped()
+			continue
+		case i == stepAt:
+			do(fmt.Sprintf("flt.epoch %d", clk.epoch+1))
+			c.Count("ntimed:epoch-change")
+			stepped()
 			continue
 		case r.Chance(4):
+			stepped()
 			ne := clk.epoch + uint64(r.Range(1, 3))
 			if r.Chance(10) {
 				ne = r.U64()
@@ -533,10 +561,14 @@ func ntimedHistory(c *lib.Ctx, r *lib.Rand, kind int, length int) {
 		}
 		var s sample
 		switch kind {
-		case 0, 2: // realistic: jitter, occasional one-sided and two-sided delay spikes, steps
+		case 0, 2, 6: // realistic: jitter, occasional one-sided and two-sided delay spikes, steps
 			up := dly + r.Range(0, jit)
 			down := dly + r.Range(0, jit)
-			switch r.Intn(12) {
+			sel := r.Intn(12)
+			if kind == 6 && sel == 4 && !r.Chance(10) {
+				sel = 1 // mostly a quiet clock: one-sided spikes on the way back instead of offset steps
+			}
+			switch sel {
 			case 0:
 				up += r.Range(5, 50) * jit
 			case 1:
@@ -688,6 +720,11 @@ func gen(c *lib.Ctx) {
 	for i := 0; i < n; i++ {
 		kind := []int{0, 0, 0, 0, 2, 1, 3, 4, 5, 0}[i%10]
 		ntimedHistory(c, rn, kind, int(rn.Range(5, 70)))
+	}
+	// clock-step histories (own stream so that the draws above are not shifted)
+	rs := r.Fork("ntimed-step")
+	for i, m := 0, c.Scale(150, 1500); i < m; i++ {
+		ntimedHistory(c, rs, 6, int(rs.Range(12, 60)))
 	}
 }
 
